@@ -1,13 +1,13 @@
 /-
 Symbolic lemmas on the mask sweeps: a fold of `toggleIfData` over any list of in-square visits
-flips exactly the `Data`-typed cells visited an odd number of times; with the tier-N fact
-`sweepOk` (visit parity = ISO condition) this gives "mask m flips exactly Data ∧ cond m".
+flips exactly the `Data`-typed cells visited an odd number of times; with the symbolic fact
+`SweepSym.count_parity` (visit parity = ISO condition, every side) this gives "mask m flips exactly Data ∧ cond m".
 -/
-import FastQr.Finite.Sweep
+import FastQr.Proofs.SweepSym
 import FastQr.Proofs.Lift
 
 namespace FastQr.Proofs
-open FastQr Model Spec Finite
+open FastQr Model Spec
 
 /-- well-formed matrix: the cell array is exactly the square -/
 def WF (q : QR) : Prop := q.cells.size = q.n * q.n
@@ -68,64 +68,28 @@ theorem foldl_toggle_get (ps : List (Nat × Nat)) (q : QR) (hq : WF q)
     · have hne : (p == (r, c)) = false := by simpa using hpe
       simp [hpe, List.count_cons, hne]
 
-/-- the parity array counts visits modulo 2 -/
-theorem visitParity_get (n : Nat) (ps : List (Nat × Nat)) (init : Array Bool) (hsz : init.size = n * n)
-    (hps : ∀ p ∈ ps, p.1 < n ∧ p.2 < n) {r c : Nat} (hr : r < n) (hc : c < n) :
-    (ps.foldl (fun a rc => a.modify (rc.1 * n + rc.2) (!·)) init).getD (r * n + c) false =
-      (if ps.count (r, c) % 2 = 1 then !(init.getD (r * n + c) false) else init.getD (r * n + c) false) := by
-  induction ps generalizing init with
-  | nil => simp
-  | cons p ps ih =>
-    have hp := hps p (by simp)
-    rw [List.foldl_cons, ih _ (by simp [hsz]) (fun x hx => hps x (by simp [hx]))]
-    have hlt : p.1 * n + p.2 < init.size := by rw [hsz]; exact idx_lt hp.1 hp.2
-    by_cases hpe : p = (r, c)
-    · subst hpe
-      simp only [List.count_cons_self, Array.getD_eq_getD_getElem?, Array.getElem?_modify, hlt,
-        if_true]
-      have hget : init[r * n + c]? = some init[r * n + c] := Array.getElem?_eq_getElem hlt
-      by_cases hodd : List.count (r, c) ps % 2 = 1
-      · have : (List.count (r, c) ps + 1) % 2 ≠ 1 := by omega
-        simp [hodd, this, hget]
-      · have : (List.count (r, c) ps + 1) % 2 = 1 := by omega
-        simp [hodd, this, hget]
-    · have hne : (p == (r, c)) = false := by simpa using hpe
-      have hidx : p.1 * n + p.2 ≠ r * n + c := by
-        intro h
-        have := (QR.index_inj hp.2 hc).1 h
-        apply hpe; cases p; simp at this; simp [this]
-      simp [List.count_cons, hne, Array.getD_eq_getD_getElem?, Array.getElem?_modify, hidx]
-
-theorem sweepOk_of {v m : Nat} (hv : v < 40) (hm : m < 8) : sweepOk m (21 + 4 * v) = true :=
-  all_range (all_range sweepOk_all v hv) m hm
-
-/-- **mask = ISO condition on Data cells**: for every legal side, every mask, every matrix -/
-theorem applyMask_get {v m : Nat} (hv : v < 40) (hm : m < 8) (q : QR) (hq : WF q)
-    (hn : q.n = 21 + 4 * v) {r c : Nat} (hr : r < q.n) (hc : c < q.n) :
+/-- **mask = ISO condition on Data cells**: for EVERY side, every mask number, every matrix
+(symbolic: `SweepSym.count_parity`, no natively evaluated fact) -/
+theorem applyMask_get_any (m : Nat) (q : QR) (hq : WF q) {r c : Nat} (hr : r < q.n) (hc : c < q.n) :
     (applyMask m q).get r c =
       if mtype (q.get r c) = tData ∧ maskCond m r c = true then mtoggle (q.get r c) else q.get r c := by
-  have hs := sweepOk_of hv hm
-  simp only [sweepOk, Bool.and_eq_true, List.all_eq_true, decide_eq_true_eq] at hs
-  obtain ⟨hb, hpar⟩ := hs
-  have hb' : ∀ p ∈ maskPositions m q.n, p.1 < q.n ∧ p.2 < q.n := by
-    intro p hp; rw [hn] at hp ⊢; exact hb p hp
-  rw [applyMask, foldl_toggle_get _ q hq hb' hc]
-  have hk := hpar (r * q.n + c) (List.mem_range.mpr (by rw [← hn]; exact idx_lt hr hc))
-  rw [← hn, idx_div hc, idx_mod hc] at hk
-  simp only [visitParity, beq_iff_eq] at hk
-  rw [visitParity_get q.n _ _ (by simp) hb' hr hc] at hk
-  simp only [Array.getD_eq_getD_getElem?, Array.getElem?_replicate, idx_lt hr hc, if_true,
-    Option.getD_some, Bool.not_false] at hk
+  rw [applyMask, foldl_toggle_get _ q hq (SweepSym.mem_bounds m q.n) hc]
+  have hk := SweepSym.count_parity m q.n r c hr hc
   by_cases hodd : List.count (r, c) (maskPositions m q.n) % 2 = 1
-  · simp only [hodd, if_true] at hk
-    simp [hodd, ← hk]
-  · simp only [hodd, if_false] at hk
-    simp [hodd, ← hk]
+  · simp [hodd, hk.mp hodd]
+  · have : ¬ maskCond m r c = true := fun h => hodd (hk.mpr h)
+    simp [hodd, this]
+
+theorem applyMask_get {v m : Nat} (_hv : v < 40) (_hm : m < 8) (q : QR) (hq : WF q)
+    (_hn : q.n = 21 + 4 * v) {r c : Nat} (hr : r < q.n) (hc : c < q.n) :
+    (applyMask m q).get r c =
+      if mtype (q.get r c) = tData ∧ maskCond m r c = true then mtoggle (q.get r c) else q.get r c :=
+  applyMask_get_any m q hq hr hc
 
 end FastQr.Proofs
 
 namespace FastQr.Proofs
-open FastQr Model Spec Finite
+open FastQr Model Spec
 
 theorem foldl_toggle_n (ps : List (Nat × Nat)) (q : QR) : (ps.foldl toggleIfData q).n = q.n := by
   induction ps generalizing q with
